@@ -66,51 +66,60 @@ def fragQuote(fragment: Fragment) -> List[Fragment]:
     '''Fragment quotes in a single fragment and return resulting fragments array.'''
     if fragment.done:
         return [fragment]
-    # Find first matched quote in fragment text.
-    quote: str
-    match: Optional[Match[str]]
-    startIndex: int = 0
-    nextIndex: int = 0
-    while True:
-        match = quotes.quotesRe.search(fragment.text, nextIndex)
-        if match is None:
-            return [fragment]
-        quote = match[1]
-        # Check if quote is escaped.
-        if match[0].startswith('\\'):
-            # Restart search after escaped opening quote.
-            nextIndex += match.start() + len(quote) + 1
-            continue
-        startIndex = match.start()
-        nextIndex = match.end()
-        break
     result: List[Fragment] = []
-    # Arrive here if we have a matched quote.
-    # The quote splits the input fragment into 5 or more output fragments:
-    # Text before the quote, left quote tag, quoted text, right quote tag and text after the quote.
-    qdef = quotes.getDefinition(match[1])
-    assert qdef is not None
-    # Check for same closing quote one character further to the right.
-    quoted = match[2]
-    while nextIndex < len(fragment.text) and fragment.text[nextIndex] == quote[0]:
-        # Move to closing quote one character to right.
-        quoted += quote[0]
-        nextIndex += 1
-    before = fragment.text[:startIndex]
-    after = fragment.text[nextIndex:]
-    result.append(Fragment(text=before, done=False))
-    result.append(Fragment(text=qdef.openTag, done=True))
-    if not qdef.spans:
-        # Spans are disabled so render the quoted text verbatim.
-        quoted = utils.replaceSpecialChars(quoted)
-        quoted = quoted.replace('\u0000', '\u0001')  # Substitute verbatim replacement placeholder.
-        result.append(Fragment(text=quoted, done=True))
-    else:
-        # Recursively process the quoted text.
-        result.extend(fragQuote(Fragment(text=quoted, done=False)))
-    result.append(Fragment(text=qdef.closeTag, done=True))
-    # Recursively process the following text.
-    result.extend(fragQuote(Fragment(text=after, done=False)))
+    text = fragment.text
+    # Each iteration processes the first matched quote in text then continues with the text following it
+    # (iteration, not recursion, so the number of quotes in a paragraph is not limited by the call stack).
+    while True:
+        # Find first matched quote in text.
+        quote: str
+        match: Optional[Match[str]]
+        startIndex: int = 0
+        nextIndex: int = 0
+        while True:
+            match = quotes.quotesRe.search(text, nextIndex)
+            if match is None:
+                break
+            quote = match[1]
+            # Check if quote is escaped.
+            if match[0].startswith('\\'):
+                # Restart search after escaped opening quote.
+                nextIndex += match.start() + len(quote) + 1
+                continue
+            startIndex = match.start()
+            nextIndex = match.end()
+            break
+        if match is None:
+            break
+        # Arrive here if we have a matched quote.
+        # The quote splits the text into 5 or more output fragments:
+        # Text before the quote, left quote tag, quoted text, right quote tag and text after the quote.
+        qdef = quotes.getDefinition(match[1])
+        assert qdef is not None
+        # Check for same closing quote one character further to the right.
+        quoted = match[2]
+        while nextIndex < len(text) and text[nextIndex] == quote[0]:
+            # Move to closing quote one character to right.
+            quoted += quote[0]
+            nextIndex += 1
+        before = text[:startIndex]
+        after = text[nextIndex:]
+        result.append(Fragment(text=before, done=False))
+        result.append(Fragment(text=qdef.openTag, done=True))
+        if not qdef.spans:
+            # Spans are disabled so render the quoted text verbatim.
+            quoted = utils.replaceSpecialChars(quoted)
+            quoted = quoted.replace('\u0000', '\u0001')  # Substitute verbatim replacement placeholder.
+            result.append(Fragment(text=quoted, done=True))
+        else:
+            # Recursively process the quoted text.
+            result.extend(fragQuote(Fragment(text=quoted, done=False)))
+        result.append(Fragment(text=qdef.closeTag, done=True))
+        # Continue with the following text.
+        text = after
+    if not result:
+        return [fragment]
+    result.append(Fragment(text=text, done=False))
     return result
 
 
@@ -159,29 +168,36 @@ def fragReplacement(fragment: Fragment,  rdef: replacements.Def) -> List[Fragmen
        Return resulting fragments array.'''
     if fragment.done:
         return [fragment]
-    match = rdef.match.search(fragment.text)
-    if match is None or match.end() == match.start():
-        # No match, or an empty match which would never consume the text.
-        return [fragment]
-    # Arrive here if we have a matched replacement.
-    # The replacement splits the input fragment into 3 output fragments:
-    # Text before the replacement, replaced text and text after the replacement.
-    before = fragment.text[:match.start()]
-    after = fragment.text[match.end():]
     result: List[Fragment] = []
-    result.append(Fragment(text=before, done=False))
-    replacement: str
-    if match[0].startswith('\\'):
-        # Remove leading backslash.
-        replacement = utils.replaceSpecialChars(match[0][1:])
-    else:
-        if rdef.filter is None:
-            replacement = utils.replaceMatch(match, rdef.replacement)
+    text = fragment.text
+    # Each iteration processes the first match in text then continues with the text following it
+    # (iteration, not recursion, so the number of replacements in a paragraph is not limited by the call stack).
+    while True:
+        match = rdef.match.search(text)
+        if match is None or match.end() == match.start():
+            # No match, or an empty match which would never consume the text.
+            break
+        # Arrive here if we have a matched replacement.
+        # The replacement splits the text into 3 output fragments:
+        # Text before the replacement, replaced text and text after the replacement.
+        before = text[:match.start()]
+        after = text[match.end():]
+        result.append(Fragment(text=before, done=False))
+        replacement: str
+        if match[0].startswith('\\'):
+            # Remove leading backslash.
+            replacement = utils.replaceSpecialChars(match[0][1:])
         else:
-            replacement = rdef.filter(match, rdef)
-    result.append(Fragment(text=replacement, done=True, verbatim=match[0]))
-    # Recursively process the remaining text.
-    result.extend(fragReplacement(Fragment(text=after, done=False), rdef))
+            if rdef.filter is None:
+                replacement = utils.replaceMatch(match, rdef.replacement)
+            else:
+                replacement = rdef.filter(match, rdef)
+        result.append(Fragment(text=replacement, done=True, verbatim=match[0]))
+        # Continue with the remaining text.
+        text = after
+    if not result:
+        return [fragment]
+    result.append(Fragment(text=text, done=False))
     return result
 
 
